@@ -14,6 +14,7 @@ import DelbModel.Props.C09
 import DelbModel.Props.C10
 import DelbModel.Props.C11
 import DelbModel.Props.C12
+import DelbModel.Props.C12Codec
 import DelbModel.Props.C13
 import DelbModel.Props.C14
 import DelbModel.Props.C15
